@@ -12,6 +12,8 @@ pub mod c07;
 pub mod c08;
 pub mod c09;
 pub mod c10;
+pub mod c13;
+pub mod c14;
 pub mod ser;
 pub mod c15;
 pub mod td_common;
@@ -30,6 +32,8 @@ macro_rules! dispatch {
             "C09" => c09::$f($ctx $(, $arg)*),
             "C10" => c10::$f($ctx $(, $arg)*),
             "C11" | "C12" => ser::$f($ctx $(, $arg)*),
+            "C13" => c13::$f($ctx $(, $arg)*),
+            "C14" => c14::$f($ctx $(, $arg)*),
             "C15" => c15::$f($ctx $(, $arg)*),
             "C16" => c16::$f($ctx $(, $arg)*),
             other => {
